@@ -63,6 +63,8 @@ THEOREMS = [
     "PV.C04.lexRest_complete",
     "PV.C04.lexRest_total",
     "PV.C04.lexRest_error_iff",
+    "PV.C04.numMalformed_iff_spec",
+    "PV.C04.lexRest_error_iff_spec",
     "PV.C04.lexRest_no_fallback",
     "PV.C04.number_suffix",
     "PV.C04.bareStar_iff",
@@ -170,13 +172,13 @@ PARTIAL = [
     "ArgsReach) — token-level only for lists printed from items (dup_param_items); error kind and offset are not part "
     "of these theorems (the reference parser has no error values); lexer-level rules are the lex_rejects family, not redone",
     "number lexer: both inclusions are theorems for texts of every length (lexRest_sound; PV.C04.NumComplete: "
-    "acceptsNumber_eq_isNumber with no exclusion, lexRest_longest / lexRest_complete = the token is THE longest literal "
-    "at the start of the text, lexRest_error_iff = the lexer fails on exactly the shapes numMalformed). What stays "
-    "outside: numMalformed is phrased through the model's own digit scanner radixRun (radix prefix without a digit; "
-    "'digits . _'; leading zero + nonzero digit not followed by '.', exponent or 'j'), not through the grammar; on those "
-    "shapes the lexer reports an error instead of the shorter literal Python's tokenizer would also not accept "
-    "(lexRest_no_fallback: 09, 1._, 0x) — that CPython rejects the same texts is checked by the oracle, not proved; the "
-    "lexer-level glue (where lex_number is entered, what follows the token) is the numParse correspondence",
+    "acceptsNumber_eq_isNumber with no exclusion; lexRest_longest / lexRest_complete / lexRest_total: off the malformed "
+    "shapes the token is THE longest numeric literal at the start of the text; lexRest_error_iff_spec: the lexer fails on "
+    "exactly three shapes written with the grammar's nonterminals — radix prefix without a digit, digitpart '.' '_', "
+    "leading-zero digit string with a nonzero digit not followed by '.', exponent or 'j'). On those shapes the lexer "
+    "reports an error and does not fall back to the shorter literal (lexRest_no_fallback: 09, 1._, 0x); that CPython "
+    "also rejects exactly those texts is judged by the oracle on the num streams, not proved (CPython's tokenizer is not "
+    "modelled). Where lex_number is entered and what may follow the token is the numParse correspondence, not a theorem",
     "string / f-string scanners: lex_string is characterised for single-quoted literals (lexStringBody_closed_iff), "
     "triple-quoted ones only by correspondence; parse_fstring / parse_formatted_value / parse_spec are modelled and tied "
     "by exhaustive correspondence (all bodies of <=6 symbols) with one theorem (fstr_leading_equals_rejected: a field "
